@@ -14,7 +14,8 @@ LEVEL = "exploration"
 RULE = ("seeded random integer regression problems (families dense / large column means / near-collinear / +-1 / sparse; "
         "n<=10 (thorough <=20), p<=4 (thorough <=6); targets with mean exactly 0, moderate mean, |mean| >> spread), "
         "alpha in 2^-10..1000 (sparse regime included), l1_ratio in {1/4,1/2,3/4,1}, tol in {2^-10,2^-14,2^-20}, both "
-        "normalisation settings, Lasso and ElasticNet; pairs (y, y+c) and (elastic net l1_ratio=1, Lasso); every row "
+        "normalisation settings, Lasso and ElasticNet; exact power-of-two scale family (y, or X and y, times 2^-20, 2^-10, 2^10 "
+        "with alpha scaled so that the objective is homogeneous; outputs descaled exactly); pairs (y, y+c) and (elastic net l1_ratio=1, Lasso); every row "
         "of the Lasso validation table incl. combinations; probes of alpha=0, constant targets and non-dyadic constant "
         "columns. Non-trivial = a valid fit in which the penalty is active but not total (some but not all |w_j| < 2^-6, "
         "or p = 1 and 0 < |w| visibly shrunk is not observable -> counted when alpha >= 1/8), a Pair event, or an "
@@ -31,6 +32,13 @@ def l1_is_one(e):
 
 def key_of(e, clause):
     """identifies the failing input class"""
+    k = key_of_unscaled(e, clause)
+    if e.get("yexp", 0) or e.get("xexp", 0):
+        k += " [data scaled by 2^%d (X) / 2^%d (y), alpha by 2^%d]" % (e.get("xexp", 0), e["yexp"], e.get("aexp", 0))
+    return k
+
+
+def key_of_unscaled(e, clause):
     fam = e.get("fam", "")
     if e["ev"] == "Fit":
         if fam.startswith("probe-constcol") or (fam.startswith("invalid6") and e.get("xden", 1) != 1):
@@ -39,6 +47,8 @@ def key_of(e, clause):
             return "alpha=0: fit does not return coefficients (%s)" % e["status"]
         if e["status"] != "ok" and len(set(e["y"])) == 1 and clause.startswith("Status_"):
             return "constant target: fit does not return coefficients (%s)" % e["status"]
+        if clause.startswith("Status_") and e["aN"] > 0 and len(set(e["y"])) > 1:
+            return "valid setting (alpha > 0, non-constant y): fit returns %s instead of coefficients, tol=2^-%d" % (e["status"], e["tolE"])
         if clause.startswith("Validation_"):
             return "lasso validation: %s -> %s" % (fam, e["status"])
         if e["est"] == "enet" and clause == "NearOptimal" and not mean_zero(e):
@@ -79,7 +89,7 @@ def run(ctx):
     events = vlib.read_ndjson(f)
     v, bads = ctx.tlc_trace("linear/LassoTrace.tla", "linear/LassoTrace.cfg", f,
                             must_hit=("Valid_lasso_raw", "Valid_lasso_std", "Valid_enet_raw", "Valid_enet_std", "Invalid",
-                                      "Pair_shift", "Pair_l1one"))
+                                      "Pair_shift", "Pair_l1one", "ScaledDown", "ScaledUp"))
     hits = v.get("hits", {})
     for (l, runid, ev, clause) in bads:
         e = events[l - 1]
